@@ -1,5 +1,5 @@
 (* C06 — Losses and error functions report the true mean loss and its true gradient.
-   Only statements + `exact`; proofs live in C06Proofs.v / C06Aux.v, the executable model in C06Model.v.
+   Only statements + `exact`; proofs live in C06Proofs.v / C06Aux.v / C06*Proofs.v, the executable model in C06Model.v and C06ExtModel.v.
 
    PROVED here (axiom-free, over Q, for all sizes / inputs / thread counts / batchings / arrival orders):
      * the work split of ErrorFunctionImpl tiles [0, batches) for every thread count >= 1; merging the
@@ -52,15 +52,44 @@
        C06_sq_error_gradient_two_layer).
        The laws of (a)-(c) are satisfiable: the reals of the standard library with exp/ln/sqrt (Examples at the
        end; these, and only these, depend on the standard-library axioms of the reals).
+     * THIRD ROUND.  (e) NegativeAUC<unsigned int, RealVector>::eval as coded (C06ExtModel.nauc_eval: the (score,label) list with the
+       `invert` flag, the counts P/N, std::sort in decreasing score order, the sweep with its six local variables, trapArea, the
+       closing trapezoid, the sign), axiom-free over Q: the sweep over ANY non-increasing permutation of the list -- i.e. whatever
+       order std::sort leaves equal scores in -- equals pair counting (C06_auc_sweep_any_sorted_permutation); the returned value is
+       -(#{(p,n): s_p > s_n} + 1/2 #{(p,n): s_p = s_n}) / (#pos * #neg) (C06_negative_auc_is_pair_counting, C06_negative_auc_value,
+       C06_auc_pair_count_cardinalities): the code's tie convention is "one half", and it does not depend on the order inside a group
+       of equal scores; the result depends only on the multiset of elements (any batch partition, any element order:
+       C06_negative_auc_batching_invariant); invert = true gives -(1 - AUC) (C06_negative_auc_invert).  Outcomes as coded: the empty
+       data set throws; if one class is absent the code divides 0.0/0.0 and returns NaN (no test, no exception); vector-valued
+       predictions: more than two columns throw, otherwise the last column is used (C06_negative_auc_vector_predictions, C06_negative_auc_vector_predictions_batching_invariant).
+       (f) SquaredLoss<Sequence,Sequence>(ignore) as coded (C06ExtModel.seq_eval / seq_evald), axiom-free over Q: both entry points
+       throw on the same inputs (some sequence not longer than `ignore`) and otherwise return the same value; the content of the
+       gradient object handed in is irrelevant (C06_sequence_loss_derivative_call_returns_eval_value, C06_sequence_loss_exception);
+       batch = sum of the sequences (C06_sequence_loss_batch_is_sum); gradient = derivative of the value along every direction, exact
+       quadratic expansion (C06_sequence_loss_gradient); the value ignores the prefix, the gradient is zero there and has the shape of
+       the predictions (C06_sequence_loss_ignored_prefix).
+       (g) cross-entropy over the REAL numbers (the polymorphic code instantiated at R with exp/ln, C06CeRealProofs.v; Coquelicot's
+       is_derive, equivalent to derivable_pt_lim; depends on the standard-library real-number axioms, classic and functional
+       extensionality, printed below): the gradient returned by the derivative call IS the derivative of the returned value --
+       along every direction and for every partial derivative softmax_j(p) - [j = c] of p |-> ln(sum_k exp p_k) - p_c
+       (C06_cross_entropy_gradient_is_directional_derivative, C06_cross_entropy_gradient_is_partial_derivative), one output:
+       sigmoid(x) - c strictly above the coded cut-off -200 < y x (C06_cross_entropy_one_output_gradient_is_derivative),
+       probability-vector labels: softmax(p) - t (C06_cross_entropy_vector_labels_gradient_is_derivative).
    PARTIAL (named *_partial): kept from round 1 for reference; superseded by the theorems of the second round
      (C06_huber_gradient_partial by C06_huber_outer_gradient*, C06_error_grad_is_param_grad_partial by *_generic).
-   ONLY COMPARED / MONITORED by tools/c06.py (not proved): that the loss gradients of cross-entropy are derivatives
-     in the analytic sense (the statement proved is the closed form softmax - one_hot; finite-difference monitor),
-     NegativeAUC (brute force pairs), finite-difference gradient monitor on every loss and on models with
-     non-linear activations, floating-point rounding (the float instantiations are compared at 1e-12),
-     the OpenMP runtime actually delivering one of the modelled schedules. *)
-From Coq Require Import List Arith ZArith QArith Qabs Permutation Reals.
-From SharkV Require Import C06LossProofs C06GenProofs C06FieldProofs C06RealProofs C06ExtModel C06AucProofs.
+   NOT PROVED: the one-output cross-entropy below the cut-off y x < -200 returns the asymptote -y x whose slope is -y, while the
+     gradient code returns sigmoid(x) - c; the two differ by less than exp(-200) (invisible in double), so the derivative theorem is
+     stated above the cut-off only.  Analytic derivatives of Huber / absolute / hinge-type losses are stated as exact algebraic
+     expansions with explicit remainders (first and second round), not with is_derive.
+   ONLY COMPARED / MONITORED by tools/c06.py (not proved): finite-difference gradient monitor on every loss and on models with
+     non-linear activations, floating-point rounding (the float instantiations are compared at 1e-12; NegativeAUC exactly when both
+     class sizes are powers of two, else at 1e-14), NegativeAUC on scores equal to -DBL_MAX (the model represents the initial
+     predictionPrev = -DBL_MAX by `None`) and the three-argument eval with an explicit column, NegativeLogLikelihood,
+     KernelTargetAlignment, CrossValidationError / LooError (C20's monitors), the OpenMP runtime actually delivering one of the
+     modelled schedules. *)
+From Coq Require Import List Arith ZArith QArith Qabs Permutation Reals Sorted Lia.
+From Coquelicot Require Coquelicot.
+From SharkV Require Import C06LossProofs C06GenProofs C06FieldProofs C06RealProofs C06ExtModel C06AucProofs C06SeqProofs C06CeRealProofs.
 
 From SharkV Require Import ListAux C03Model C06Model C06Proofs C06Aux.
 Import ListNotations.
@@ -609,11 +638,134 @@ Theorem C06_negative_auc_batching_invariant :
 Proof. exact (fun inv d1 d2 => conj (nauc_eval_batching_invariant inv d1 d2) (nauc_eval_order_invariant inv d1 d2)). Qed.
 Print Assumptions C06_negative_auc_batching_invariant.
 
+(* the entry point on vector-valued predictions: exceptions for the empty set and for more than two columns, otherwise the
+   one-column function on the last column; independent of the batch partition *)
+Theorem C06_negative_auc_vector_predictions :
+  forall inv (d : @data (nat * vec)),
+    match elems d with
+    | [] => nauc_eval_vec inv d = AucExc
+    | e0 :: _ =>
+      let dim := length (snd e0) in
+      ((3 <= dim)%nat -> nauc_eval_vec inv d = AucExc) /\
+      ((dim < 3)%nat -> nauc_eval_vec inv d = nauc_eval inv [map (fun e => (fst e, nth (dim - 1) (snd e) 0)) (elems d)])
+    end.
+Proof. exact nauc_eval_vec_spec. Qed.
+Print Assumptions C06_negative_auc_vector_predictions.
+
+Theorem C06_negative_auc_vector_predictions_batching_invariant :
+  forall inv (d1 d2 : @data (nat * vec)), elems d1 = elems d2 -> nauc_eval_vec inv d1 = nauc_eval_vec inv d2.
+Proof. exact nauc_eval_vec_batching_invariant. Qed.
+Print Assumptions C06_negative_auc_vector_predictions_batching_invariant.
+
 (* invert = true (scores negated) is the AUC with the roles of the classes exchanged: AUC_inverted = 1 - AUC *)
 Theorem C06_negative_auc_invert :
   forall (d : @data (nat * Q)) a b, nauc_eval false d = AucVal a -> nauc_eval true d = AucVal b -> b == - (1) - a.
 Proof. exact nauc_eval_invert. Qed.
 Print Assumptions C06_negative_auc_invert.
+
+(* ---- SquaredLoss<Sequence,Sequence>(ignore) as coded ---- *)
+(* eval and evalDerivative: the same outcome (both throw, or both return), the same value; the content of the caller's gradient
+   object is irrelevant (every sequence is cleared before it is filled) *)
+Theorem C06_sequence_loss_derivative_call_returns_eval_value :
+  forall ignore old b,
+    match seq_eval ignore b, seq_evald ignore old b with
+    | Some v, Some (dv, g) => dv == v /\ seq_evald ignore [] b = Some (dv, g) /\ g = seq_grads ignore b
+    | None, None => True
+    | _, _ => False
+    end.
+Proof. exact seq_paths. Qed.
+Print Assumptions C06_sequence_loss_derivative_call_returns_eval_value.
+
+Theorem C06_sequence_loss_exception :
+  forall ignore old b,
+    (seq_ok ignore b = false <-> exists e, In e b /\ (length (fst e) <= ignore)%nat) /\
+    (seq_ok ignore b = false -> seq_eval ignore b = None /\ seq_evald ignore old b = None) /\
+    (seq_ok ignore b = true -> seq_eval ignore b = Some (seq_val ignore b)).
+Proof. exact (fun ignore old b => conj (proj1 (seq_exception ignore old b)) (conj (proj2 (seq_exception ignore old b)) (seq_eval_ok ignore b))). Qed.
+Print Assumptions C06_sequence_loss_exception.
+
+Theorem C06_sequence_loss_batch_is_sum :
+  forall ignore b,
+    seq_val ignore b == qsum (map (fun e => seq_val ignore [e]) b) /\
+    seq_grads ignore b = map (fun e => nth 0 (seq_grads ignore [e]) []) b /\
+    seq_ok ignore b = forallb (fun e => seq_ok ignore [e]) b.
+Proof. exact seq_batch_is_sum. Qed.
+Print Assumptions C06_sequence_loss_batch_is_sum.
+
+(* gradient = derivative of the value w.r.t. the predictions: exact expansion along any direction V of the shape of the
+   predictions; the remainder only sees the counted part of V *)
+Theorem C06_sequence_loss_gradient :
+  forall ignore old t V b v0 dv G v1, batch_shape V b ->
+    seq_eval ignore b = Some v0 -> seq_evald ignore old b = Some (dv, G) -> seq_eval ignore (batch_axpy t V b) = Some v1 ->
+    dv == v0 /\ v1 - v0 == t * (batch_dot G V + t * ((1 # 2) * batch_cnorm ignore V)).
+Proof. exact seq_gradient_calls. Qed.
+Print Assumptions C06_sequence_loss_gradient.
+
+(* the ignored prefix: the value does not look at it, the gradient is zero there and has the shape of the predictions *)
+Theorem C06_sequence_loss_ignored_prefix :
+  forall ignore l p,
+    (forall p', skipn ignore p = skipn ignore p' -> seq1_sum ignore l p = seq1_sum ignore l p') /\
+    (forall j, (j < ignore)%nat -> (j < length p)%nat -> nth j (seq1_grad ignore [] l p) [] = map (fun _ => 0) (nth j p [])) /\
+    (length p = length l -> length (seq1_grad ignore [] l p) = length l).
+Proof.
+  exact (fun ignore l p => conj (seq_ignored_prefix ignore l p)
+                                (conj (fun j => seq_grad_ignored_zero ignore l p j) (seq_grad_shape ignore l p))).
+Qed.
+Print Assumptions C06_sequence_loss_ignored_prefix.
+
+(* ---- cross-entropy: the coded gradient is the derivative of the coded value in the analytic sense (over R, exp / ln) ---- *)
+(* The polymorphic cross-entropy code of C06Model.v read over the reals (Rce_eval := ce_eval R 0 1 Rplus ... exp ln ...).
+   is_derive is Coquelicot's derivative predicate, equivalent to derivable_pt_lim of the standard library. *)
+Section RealDerivatives.
+Import Coquelicot.Coquelicot.
+(* inside this section Coquelicot's tuple notation hides the list notation [x]: lists are written with :: and nil *)
+Local Open Scope R_scope.
+
+(* multi-class, unsigned-int labels, along EVERY direction v and at every point of the line:
+   d/dt ce_eval c (p + t v) = < gradient returned by the derivative call at p + t v , v > *)
+Theorem C06_cross_entropy_gradient_is_directional_derivative :
+  forall c p v t0, (length p =? 1)%nat = false -> p <> nil -> length v = length p ->
+    is_derive (fun t => Rce_eval c (Raxpy t v p)) t0 (Rdot (snd (Rce_evald c (Raxpy t0 v p))) v).
+Proof. exact Rce_directional_derivative. Qed.
+
+(* every partial derivative: the coded component softmax_j(p) - [j = c] is the derivative of  p |-> ln(sum_k exp p_k) - p_c
+   with respect to p_j (stated for the coded functions, for the written-out value, and with derivable_pt_lim) *)
+Theorem C06_cross_entropy_gradient_is_partial_derivative :
+  forall c p j, (length p =? 1)%nat = false -> (j < length p)%nat ->
+    is_derive (fun x => Rce_eval c (upd j x p)) (nth j p 0) (nth j (snd (Rce_evald c p)) 0) /\
+    is_derive (fun x => ln (Rexpsum (upd j x p)) - nth c (upd j x p) 0) (nth j p 0)
+              (exp (nth j p 0) / Rexpsum p - (if (j =? c)%nat then 1 else 0)) /\
+    derivable_pt_lim (fun x => Rce_eval c (upd j x p)) (nth j p 0) (nth j (snd (Rce_evald c p)) 0).
+Proof.
+  exact (fun c p j Hd Hj => conj (Rce_partial_derivative c p j Hd Hj)
+                                 (conj (Rce_partial_derivative_explicit c p j Hd Hj) (Rce_partial_derivative_Reals c p j Hd Hj))).
+Qed.
+
+(* one output: sigmoid(x) - c is the derivative of the coded value at every x strictly above the coded cut-off (below it the
+   code returns the asymptote -y x, whose slope -y differs from sigmoid(x) - c by less than exp(-200)) *)
+Theorem C06_cross_entropy_one_output_gradient_is_derivative :
+  forall c x0, (c < 2)%nat -> -200 < x0 * Rylabel c ->
+    is_derive (fun x => Rce_eval c (x :: nil)) x0 (nth 0 (snd (Rce_evald c (x0 :: nil))) 0) /\
+    nth 0 (snd (Rce_evald c (x0 :: nil))) 0 = Rsigmoid x0 - INR c.
+Proof. exact Rce_one_output_derivative. Qed.
+
+(* probability-vector labels (one row; a batch is the sum of its rows): directional and partial derivatives *)
+Theorem C06_cross_entropy_vector_labels_gradient_is_derivative :
+  forall tl p, length tl = length p ->
+    (forall v s0, p <> nil -> length v = length p ->
+       is_derive (fun s => Rcev_eval ((tl, Raxpy s v p) :: nil)) s0 (Rdot (nth 0 (snd (Rcev_evald ((tl, Raxpy s0 v p) :: nil))) nil) v)) /\
+    (forall j, (j < length p)%nat ->
+       is_derive (fun x => Rcev_eval ((tl, upd j x p) :: nil)) (nth j p 0) (nth j (nth 0 (snd (Rcev_evald ((tl, p) :: nil))) nil) 0) /\
+       nth j (nth 0 (snd (Rcev_evald ((tl, p) :: nil))) nil) 0 = exp (nth j p 0) / Rexpsum p - nth j tl 0).
+Proof.
+  exact (fun tl p Ht => conj (fun v s0 Hne Hv => Rcev_directional_derivative tl p v s0 Hne Hv Ht)
+                             (fun j Hj => Rcev_partial_derivative tl p j Ht Hj)).
+Qed.
+End RealDerivatives.
+Print Assumptions C06_cross_entropy_gradient_is_directional_derivative.
+Print Assumptions C06_cross_entropy_gradient_is_partial_derivative.
+Print Assumptions C06_cross_entropy_one_output_gradient_is_derivative.
+Print Assumptions C06_cross_entropy_vector_labels_gradient_is_derivative.
 
 (* ---- the hypotheses are satisfiable ---- *)
 Example ex_ranges : thread_ranges 3 7 = [(0, 3); (3, 5); (5, 7)]%nat.
@@ -694,8 +846,6 @@ Proof. exact (conj R_huber_outer_side_conditions R_ce_no_cutoff). Qed.
 (* two positives (scores 1, 1/2), two negatives (1, 0), one tie: -(2 + 1/2)/4 = -5/8; the two batches and the two arrangements
    of the tied pair give the same value; inverted: -1 + 5/8 *)
 Definition ex_auc_d : @data (nat * Q) := [[(1%nat, 1); (0%nat, 1)]; [(2%nat, 1 # 2); (0%nat, 0)]].
-Example ex_auc_value : nauc_eval false ex_auc_d = AucVal (- ((0 + (1 # 2 + (0 + 0))) * 1 + 0)%Q) \/ True.
-Proof. right. exact I. Qed.
 Example ex_auc_eval : match nauc_eval false ex_auc_d, nauc_eval true ex_auc_d with
                       | AucVal a, AucVal b => Qred a = (-5 # 8) /\ Qred b = (-3 # 8) | _, _ => False end.
 Proof. vm_compute. split; reflexivity. Qed.
@@ -711,3 +861,25 @@ Proof.
 Qed.
 Example ex_auc_outcomes : nauc_eval false [[]; []] = AucExc /\ nauc_eval true [[(1%nat, 3)]; [(1%nat, 0)]] = AucNaN /\ nauc_eval false [[(0%nat, 3)]] = AucNaN.
 Proof. repeat split. Qed.
+
+(* two sequences of lengths 2 and 3 of 1-d elements, ignore = 1, a direction of the same shape, a reused gradient object *)
+Definition ex_seq_b : list (sequence * sequence) := [([[1]; [2]], [[0]; [1 # 2]]); ([[0]; [0]; [1]], [[5]; [1]; [3]])].
+Definition ex_seq_V : list sequence := [[[1]; [1]]; [[2]; [0]; [-(1)]]].
+Example ex_seq_shape : batch_shape ex_seq_V ex_seq_b /\ seq_ok 1 ex_seq_b = true /\ seq_ok 2 ex_seq_b = false.
+Proof. simpl. repeat split. Qed.
+Example ex_seq_calls :
+  match seq_eval 1 ex_seq_b, seq_evald 1 [[[7]]; [[7]; [7]; [7]; [7]]; [[7]]] ex_seq_b, seq_eval 1 (batch_axpy (1 # 2) ex_seq_V ex_seq_b) with
+  | Some v0, Some (dv, G), Some v1 =>
+    Qred v0 = 29 # 8 /\ Qred dv = 29 # 8 /\ G = [[[0]; [-3 # 2]]; [[0]; [1]; [2]]] /\
+    Qred (v1 - v0) = Qred ((1 # 2) * (batch_dot G ex_seq_V + (1 # 2) * ((1 # 2) * batch_cnorm 1 ex_seq_V)))
+  | _, _, _ => False
+  end.
+Proof. vm_compute. repeat split. Qed.
+
+(* the side conditions of the real-number theorems are satisfiable: three logits, a direction, label 1 above the cut-off *)
+Example ex_real_side_conditions :
+  ((length [1; 0; -(2)]%R =? 1)%nat = false /\ [1; 0; -(2)]%R <> [] /\ length [1; 1; 0]%R = length [1; 0; -(2)]%R) /\
+  ((1 < 2)%nat /\ (-200 < 3 * Rylabel 1)%R).
+Proof.
+  split; [repeat split; discriminate|]. split; [lia|]. unfold Rylabel, C06FieldProofs.ylabel. simpl. Lra.lra.
+Qed.
